@@ -90,6 +90,11 @@ void DataArray::appendData(DataType dtype, const void *data, const NDSize &count
         }
     }
 
+    // data that cannot be stored is refused before the DataArray is enlarged
+    if (!data_type_is_convertible(dtype, dataType())) {
+        throw std::invalid_argument("DataArray::appendData: the data type of the data cannot be converted to the data type of the DataArray");
+    }
+
     NDSize offset(extent.size(), 0);
     offset[axis] = extent[axis];
     extent[axis] += count[axis];
